@@ -1,4 +1,5 @@
 import WindVerif.Proofs.SpanSet
+import WindVerif.Proofs.SpanSetDisjoint
 /-!
 # C10 — SpanSet operators follow their membership-based definitions for every relation
 
@@ -110,5 +111,43 @@ theorem issuperset_iff (A B : SpanSet) : issuperset A B = true ↔ ∀ x ∈ B.s
 /-- non-vacuity: asymmetric relations make `A <= B` and `B >= A`-style reasoning differ from naive sets -/
 example : le (mk .partOf [(2, 3)]) (mk .partOf [(0, 10)]) = true ∧ le (mk .partOf [(0, 10)]) (mk .partOf [(2, 3)]) = false ∧
     (opAnd (mk .overlaps [(1, 3), (2, 5), (6, 7)]) (mk .partOf [(0, 10)])).spans = [(1, 3), (6, 7), (0, 10)] := by decide
+
+/-! ### `isdisjoint` and the order of its operands (proofs in `Proofs/SpanSetDisjoint.lean`)
+
+`A.isdisjoint(B)` probes `A` with the elements of `B`.  For the symmetric relations the operands may change places, for
+PartOf / Includes they may not (so "iterate over the smaller operand", as the builtin set does, is not available). -/
+
+theorem isdisjoint_swap_exact (A B : SpanSet) (hA : A.rel = .exact) (hB : B.rel = .exact) :
+    isdisjoint A B.spans = isdisjoint B A.spans := by
+  first | exact WindVerif.SpanSet.isdisjoint_swap_exact .. | (apply WindVerif.SpanSet.isdisjoint_swap_exact <;> assumption)
+
+theorem isdisjoint_swap_overlaps (A B : SpanSet) (hA : A.rel = .overlaps) (hB : B.rel = .overlaps) :
+    isdisjoint A B.spans = isdisjoint B A.spans := by
+  first | exact WindVerif.SpanSet.isdisjoint_swap_overlaps .. | (apply WindVerif.SpanSet.isdisjoint_swap_overlaps <;> assumption)
+
+/-- PartOf (`x in S`: `x` lies inside a stored span): `(2,3)` lies inside `(0,10)`, but `(0,10)` lies inside neither
+`(2,3)` nor `(20,30)` -/
+theorem isdisjoint_swap_partof_wrong :
+    isdisjoint (mk .partOf [(0, 10)]) (mk .partOf [(2, 3), (20, 30)]).spans = false ∧
+    isdisjoint (mk .partOf [(2, 3), (20, 30)]) (mk .partOf [(0, 10)]).spans = true := by
+  first | exact WindVerif.SpanSet.isdisjoint_swap_partof_wrong .. | (apply WindVerif.SpanSet.isdisjoint_swap_partof_wrong <;> assumption)
+
+/-- Includes (`x in S`: `x` contains a stored span): the same two sets, the other way round -/
+theorem isdisjoint_swap_includes_wrong :
+    isdisjoint (mk .includes [(0, 10)]) (mk .includes [(2, 3), (20, 30)]).spans = true ∧
+    isdisjoint (mk .includes [(2, 3), (20, 30)]) (mk .includes [(0, 10)]).spans = false := by
+  first | exact WindVerif.SpanSet.isdisjoint_swap_includes_wrong .. | (apply WindVerif.SpanSet.isdisjoint_swap_includes_wrong <;> assumption)
+
+/-- non-vacuity: two Exact sets and two Overlaps sets, not disjoint / disjoint, the same answer both ways round; the
+witness sets keep all their spans -/
+example : (mk .exact [(1, 2), (3, 4)]).rel = .exact ∧
+    isdisjoint (mk .exact [(1, 2), (3, 4)]) (mk .exact [(3, 4)]).spans = false ∧
+    isdisjoint (mk .exact [(3, 4)]) (mk .exact [(1, 2), (3, 4)]).spans = false ∧
+    isdisjoint (mk .overlaps [(1, 2), (5, 6)]) (mk .overlaps [(3, 4)]).spans = true ∧
+    isdisjoint (mk .overlaps [(3, 4)]) (mk .overlaps [(1, 2), (5, 6)]).spans = true ∧
+    isdisjoint (mk .overlaps [(1, 3), (5, 6)]) (mk .overlaps [(3, 4)]).spans = false ∧
+    isdisjoint (mk .overlaps [(3, 4)]) (mk .overlaps [(1, 3), (5, 6)]).spans = false ∧
+    (mk .partOf [(2, 3), (20, 30)]).spans = [(2, 3), (20, 30)] ∧ (mk .includes [(2, 3), (20, 30)]).spans = [(2, 3), (20, 30)] := by
+  decide
 
 end WindVerif.C10
